@@ -484,7 +484,7 @@ func vTHandlesClosed() bool {
 	return true
 }
 
-//verif:samples 40
+//verif:samples 400
 func vh_C05_tree_mkdirall() {
 	c, ref := vTSetup()
 	defer vPeerDone(c)
@@ -497,7 +497,7 @@ func vh_C05_tree_mkdirall() {
 	vEmit("want", want)
 }
 
-//verif:samples 40
+//verif:samples 400
 func vh_C05_tree_removeall() {
 	c, ref := vTSetup()
 	defer vPeerDone(c)
@@ -511,7 +511,7 @@ func vh_C05_tree_removeall() {
 	vEmit("want", want)
 }
 
-//verif:samples 40
+//verif:samples 400
 func vh_C05_tree_remove() {
 	c, ref := vTSetup()
 	defer vPeerDone(c)
@@ -531,7 +531,7 @@ func vh_C05_tree_remove() {
 	vAssert(vTSrv.equal(ref), "Remove/RemoveDirectory: leaves the tree as os.Remove does"+vSfx(p))
 }
 
-//verif:samples 40
+//verif:samples 400
 func vh_C05_tree_readdir() {
 	c, ref := vTSetup()
 	defer vPeerDone(c)
@@ -592,7 +592,7 @@ func vContainsAny(s, chars string) bool {
 }
 
 //verif:redirect strings.ContainsAny vContainsAny
-//verif:samples 40
+//verif:samples 400
 func vh_C05_tree_glob() {
 	c, ref := vTSetup()
 	defer vPeerDone(c)
@@ -685,7 +685,7 @@ func (t *vTree) osWalk(root string, out []string) []string {
 	return out
 }
 
-//verif:samples 40
+//verif:samples 400
 func vh_C05_tree_walk() {
 	c, ref := vTSetup()
 	defer vPeerDone(c)
